@@ -34,6 +34,8 @@ func init() {
 			"regexp/syntax.Parse with Perl flags is what regexp.MustCompile accepts",
 		},
 		Mutants: []Mutant{
+			{ID: "C17-empty-input-waits-for-echo", Desc: "ReadUntilFuzzy no longer returns at once for an empty input (cumulus root_login steps with an empty command)", Rule: "C17/empty-step",
+				Edits: []Edit{{File: "channel/read.go", Old: "\tif len(b) == 0 {\n\t\treturn nil, nil\n\t}\n\n\tvar rb []byte", New: "\tvar rb []byte"}}},
 			{ID: "C17-rename-const", Desc: "advertised name without embedded file", Rule: "C17/name-file",
 				Edits: []Edit{{File: "platform/definition.go", Old: `VyattaVyos = "vyatta_vyos"`, New: `VyattaVyos = "vyatta_vyoss"`}}},
 			{ID: "C17-two-roots", Desc: "privilege level loses its previous-priv link", Rule: "C17/tree",
@@ -67,6 +69,8 @@ func init() {
 }
 
 func runC17(c *Ctx, r *Report) {
+	platformLevelsSeen = nil
+	defer func() { platformLevelsDone = true }()
 	importFoundation(c, r, "C17", "driver-options")
 	importFoundation(c, r, "C17", "read-loop")
 	importFoundation(c, r, "C17", "priv-steps")
@@ -211,6 +215,9 @@ func runC17(c *Ctx, r *Report) {
 	checkOnXAcquireDefault(c, r)
 	checkFreshDefinition(c, r)
 	checkGraphLinks(c, r, "C17/graph-links")
+	platformLevelsDone = true
+	r.Rule("C17/empty-step", "when an embedded definition steps between two levels with an empty command, the echo matcher returns at once for an empty input (nothing is echoed for it)", 1)
+	checkEmptyStepSendable(c, r, "C17/empty-step")
 }
 
 func advertisedNames(c *Ctx) ([]string, bool) {
@@ -411,6 +418,26 @@ func reCompiles(s string) error {
 	return err
 }
 
+// platLevel: one privilege level of an embedded definition (default section or merged variant), as collected by
+// validatePlatform; used by rules of other properties that tie the code to the data it ships with.
+type platLevel struct {
+	Platform, Section, Pos, Level, Previous, Escalate, Deescalate, EscalateAuth, EscalatePrompt string
+}
+
+var (
+	platformLevelsSeen []platLevel
+	platformLevelsDone bool
+)
+
+// platformLevels returns the levels of all advertised embedded definitions (running the C17 asset walk once if needed).
+func platformLevels(c *Ctx) []platLevel {
+	if !platformLevelsDone {
+		platformLevelsSeen = nil
+		runC17(c, NewReport("x"))
+	}
+	return platformLevelsSeen
+}
+
 func validatePlatform(c *Ctx, r *Report, name, section, pos string, p *yval, genericOps, networkOps, driverTypes map[string]bool, optTable map[string]string) (startOnly []string) {
 	who := "platform " + name + " " + section
 	dt := p.str("DriverType")
@@ -432,6 +459,7 @@ func validatePlatform(c *Ctx, r *Report, name, section, pos string, p *yval, gen
 					continue
 				}
 				lv[k] = l
+				platformLevelsSeen = append(platformLevelsSeen, platLevel{Platform: name, Section: section, Pos: pos, Level: k, Previous: l.str("PreviousPriv"), Escalate: l.str("Escalate"), Deescalate: l.str("Deescalate"), EscalateAuth: l.str("EscalateAuth"), EscalatePrompt: l.str("EscalatePrompt")})
 				if l.str("Name") != k {
 					problems = append(problems, fmt.Sprintf("level key %q has name %q", k, l.str("Name")))
 				}
